@@ -30,7 +30,9 @@ mod builtin_imports {
 
     pub(crate) use std::{
         cmp::Ordering,
-        collections::{BTreeMap, BTreeSet},
+        collections::BTreeSet,
         sync::Arc,
     };
+
+    pub(crate) use indexmap::IndexMap;
 }
